@@ -221,3 +221,43 @@ def truthiness_flags(fnode, sn) -> set:
         if isinstance(n, (ast.If, ast.IfExp)):
             truth(n.test)
     return fl
+
+
+def diagonal_store(st, fnode=None):
+    """(array text, value node) when `st` assigns one value to the whole main
+    diagonal of an array, in any of the spellings of diagonal_clear_target (the
+    value need not be zero); a slice bound to a local is looked up in `fnode`."""
+    if isinstance(st, ast.Expr) and isinstance(st.value, ast.Call):
+        c = st.value
+        if _np(c.func, ("fill_diagonal",)) and len(c.args) >= 2:
+            return ast.unparse(c.args[0]), c.args[1]
+        return None
+    if isinstance(st, ast.Call) and _np(st.func, ("fill_diagonal",)) and len(st.args) >= 2:
+        return ast.unparse(st.args[0]), st.args[1]
+    if not (isinstance(st, ast.Assign) and len(st.targets) == 1
+            and isinstance(st.targets[0], ast.Subscript)):
+        return None
+    tg = st.targets[0]
+    sl = tg.slice
+    if fnode is not None:
+        sl = inline_locals(fnode, sl)
+    if isinstance(tg.value, ast.Attribute) and tg.value.attr == "flat":
+        lower = step = None
+        upper_ok = True
+        if isinstance(sl, ast.Slice):
+            lower, step = sl.lower, sl.step
+        elif isinstance(sl, ast.Call) and isinstance(sl.func, ast.Name) and \
+                sl.func.id == "slice" and len(sl.args) == 3:
+            lower, step = sl.args[0], sl.args[2]
+        else:
+            return None
+        low0 = lower is None or (isinstance(lower, ast.Constant) and lower.value in (0, None))
+        if low0 and step is not None and _plus_one(step):
+            return ast.unparse(tg.value.value), st.value
+        return None
+    probe = ast.Assign(targets=[ast.Subscript(value=tg.value, slice=sl, ctx=ast.Store())],
+                       value=ast.Constant(value=0))
+    t = diagonal_clear_target(probe)
+    if t is not None:
+        return t, st.value
+    return None
